@@ -132,3 +132,40 @@ func Harness_C05_deferFaults() {
 	zzsym.Assert(zzsym.Quiesce() == 0, "nothing is left running after the last payload")
 	zzsym.Reach("c05.deferfaults")
 }
+
+func Setup_C05_nestedLists() { Setup_C13_defer() }
+
+// Harness_C05_nestedLists: lists of objects inside the elements of a list of
+// objects (2..3 outer elements x 2..3 inner elements, a third level below
+// the first inner element), no fault and no cancellation: under every
+// worker_limit the response function returns the plain result - the workers
+// of an outer list never wait for slots that only they can free - and
+// nothing is left running.
+func Harness_C05_nestedLists() {
+	doc := mustLoad(`{ users { id friends { id friends { id } } } }`)
+	w := newWorld(0, false)
+	w.cancels = true
+	n1 := 2 + zzsym.Choice("outer", 2)
+	n2 := 2 + zzsym.Choice("inner", 2)
+	var outer []string
+	for i := 0; i < n1; i++ {
+		oid := "users[" + itoa(i) + "]"
+		outer = append(outer, oid)
+		var inner []string
+		for j := 0; j < n2; j++ {
+			iid := oid + ".friends[" + itoa(j) + "]"
+			inner = append(inner, iid)
+			w.outs[iid+"/User.friends"] = ref.Out{List: users(iid+".friends[0]", iid+".friends[1]")}
+		}
+		w.outs[oid+"/User.friends"] = ref.Out{List: users(inner...)}
+	}
+	w.outs["/Query.users"] = ref.Out{List: users(outer...)}
+	ctx, cancel := context.WithCancel(context.Background())
+	got := runOpCtx(ctx, -1, w, doc, doc.Operations[0], nil)
+	zzsym.Assert(len(got.resps) == 1, "the response function returned a response")
+	want := ref.Execute(pSchema, doc, doc.Operations[0], nil, w)
+	zzsym.Assert(got.data == want.Data && len(got.errs) == 0, "nested lists: the plain result")
+	cancel()
+	zzsym.Assert(zzsym.Quiesce() == 0, "nothing is left running after the request ended")
+	zzsym.Reach("c05.nested")
+}
